@@ -188,7 +188,33 @@ func (c *Ctx) newIDP(reg registry) *saml.IdentityProvider {
 		ServiceProviderProvider: reg, SessionProvider: fixedSession{&saml.Session{ID: "sess1", NameID: "alice", UserName: "alice", CreateTime: time.Unix(1700000000, 0), ExpireTime: time.Unix(1900000000, 0), Index: "idx1"}}}
 }
 
+// deliverAs makes the HTTP request that carries the message look as if it had been received at the location the
+// message names as Destination: the validity of a request must not depend on what the request says about its own delivery.
+func deliverAs(r *http.Request, how string, dest string) {
+	u, err := url.Parse(strings.TrimSpace(dest))
+	if err != nil || u.Host == "" {
+		return
+	}
+	switch how {
+	case "host":
+		r.Host = u.Host
+	case "url":
+		r.Host = u.Host
+		r.URL.Host = u.Host
+		r.URL.Scheme = u.Scheme
+		r.URL.Path = u.Path
+	case "forwarded":
+		r.Header.Set("X-Forwarded-Host", u.Host)
+		r.Header.Set("Forwarded", "host="+u.Host)
+		r.Header.Set("X-Forwarded-Proto", u.Scheme)
+	}
+}
+
 func (c *Ctx) idpValidate(reg registry, regOrder []string, a areq, now int64, delay int64, post bool) {
+	c.idpValidateVia(reg, regOrder, a, now, delay, post, "")
+}
+
+func (c *Ctx) idpValidateVia(reg registry, regOrder []string, a areq, now int64, delay int64, post bool, delivery string) {
 	saml.MaxIssueDelay = time.Duration(delay) * time.Millisecond
 	t := time.UnixMilli(now).UTC()
 	saml.TimeNow = func() time.Time { return t }
@@ -206,6 +232,10 @@ func (c *Ctx) idpValidate(reg registry, regOrder []string, a areq, now int64, de
 		w.Close()
 		q := url.Values{"SAMLRequest": {base64.StdEncoding.EncodeToString(zb.Bytes())}, "RelayState": {"rs"}}
 		r, _ = http.NewRequest("GET", idpSSOURL+"?"+q.Encode(), nil)
+	}
+	if delivery != "" {
+		deliverAs(r, delivery, a.Destination)
+		c.count("c05-delivery", delivery)
 	}
 	impl := safely(func() string {
 		req, err := saml.NewIdpAuthnRequest(idp, r)
@@ -419,6 +449,10 @@ func (c *Ctx) genC05() {
 				a := areq{ID: "id-dest", Issuer: sp(issuers[0]), Version: sp("2.0"), II: &ii, Destination: d}
 				c.count("c05-destination", "near-miss-alone")
 				c.idpValidate(goodReg, []string{issuers[0]}, a, now, delay, post)
+				// the same message on a connection that claims the Destination's authority (Host header, request URL, proxy headers)
+				for _, how := range []string{"host", "url", "forwarded"} {
+					c.idpValidateVia(goodReg, []string{issuers[0]}, a, now, delay, post, how)
+				}
 			}
 		}
 	}
@@ -515,7 +549,7 @@ func (c *Ctx) genC05() {
 		case 1:
 			a.ACSIndex = c.pick("01", "+1", "x", " 1", "1 ", "9999999999999999999999")
 		}
-		c.idpValidate(reg, order, a, now, delay, c.chance(0.5))
+		c.idpValidateVia(reg, order, a, now, delay, c.chance(0.5), c.pick("", "", "host", "url", "forwarded"))
 	}
 	m := 300
 	if !c.quick() {
